@@ -203,6 +203,14 @@ Definition init (pre : list event) (c0 : nat) : st :=
 Definition init_stale (pre : list event) (q : list (nat * nat)) : st :=
   {| log := pre; cfrm := length pre; infl := []; queue := q; desc := None; wrk := None; dst := []; alive := true |}.
 
+(* DELETE PIPE followed by CREATE PIPE under the same name (Service.DeletePipe -> ppipe.delete ->
+   persister.onDeleteStream removes the file with the saved positions of that name, Service.CreatePipe -> newPPipe ->
+   persister.loadPipeInfo finds nothing): the new pipe has no descriptor and no worker; the source journal, the
+   writers in flight and the channel are what they were. The destination partition {logrange.pipe=name} keeps the
+   events of the earlier epoch; dst counts what the workers of the NEW pipe append. *)
+Definition recreate (s : st) : st :=
+  {| log := log s; cfrm := cfrm s; infl := infl s; queue := queue s; desc := None; wrk := None; dst := []; alive := true |}.
+
 (* what the property asks the destination to hold for this source *)
 Definition expected (tags : list (bytes * bytes)) (base : nat) (l : list event) : list devent :=
   map (transform tags) (filter e_keep (skipn base l)).
